@@ -95,6 +95,9 @@ PROPS.update({
               trusted=BOUNDED_TRUSTED, dropped=["IntoOwned bodies are iterator adapters / std ToOwned calls outside the Verus dialect"]),
     "C15": _p("model_checking", [], "==, partial_cmp, cmp of read items against the owned vectors for all triples of short vectors in every representation; Wrapped raw versus encoded.",
               trusted=BOUNDED_TRUSTED, dropped=["ReadSlice comparisons delegate to std's iterator comparison, which Verus cannot read"]),
+    "C16": _p("model_checking", [], "serde_json round trip of 17 region compositions and 3 FlatStacks at an arbitrary point of a short history; original and restored copy driven through the same continuation: same indices, reads, used bytes.",
+              trusted=BOUNDED_TRUSTED + ["serde / serde_derive / serde_json (external crates): the derive output and the text format are exercised, not verified"],
+              dropped=["serde derive output is macro-generated code outside the Verus dialect and the (de)serialiser is an external crate: there is no function of the crate to put under contract, so C16 has no deductive part — bounded stand-in only"]),
     "C17": _p("model_checking", [], "after reserve_items / reserve_regions / merge_regions / merge_capacity, pushing exactly the announced contents leaves every capacity reported by heap_size unchanged and calls the allocator zero times; without pre-sizing n = 2^6..2^14 pushes cost O(log n) allocator calls per storage (counting global allocator).",
               trusted=BOUNDED_TRUSTED, dropped=["allocation counts are whole-history resource properties of std::Vec's growth policy: no contract here can express them, so C17 has no deductive part; the bounded driver counts allocator calls up to n = 2^14"]),
     "C18": _p("model_checking", [], "heap_size accounting over 12 compositions and the index containers with a recording callback, plus a program-text obligation that every storage field is forwarded.",
